@@ -4,7 +4,7 @@ from ._lib import lib_run
 
 
 def run(tier, replay=None):
-    cells = cxx.QUICK_CELLS if tier == "quick" else cxx.ALL_CELLS
+    cells = cxx.CODEC_CELLS if tier == "quick" else cxx.ALL_CELLS
     vs = []
     for cell in cells:
         cxx20 = cell[1] in ("c++20", "c++23", "c++2b")
